@@ -171,3 +171,67 @@ Proof.
     as (t' & Hr & HI').
   rewrite (begin_block_refines _ _ _ _ _ HB id) in Hr. injection Hr as <-. exact HI'.
 Qed.
+
+(* ---------- block level: no panic ---------- *)
+Definition StoreInv (n : Z) (s : mstore) : Prop := forall id, exists g, Inv17 n g (sget s id).
+
+Lemma nth_z_some {A} (l : list A) : forall i, (i < length l)%nat -> exists x, nth_z l i = Some x.
+Proof.
+  induction l as [|y l IH]; intros i Hi; cbn [length] in Hi; [lia|].
+  destruct i as [|i]; cbn [nth_z]; [eexists; reflexivity|apply IH; lia].
+Qed.
+
+Lemma rate_loop_ok n gap height rates assets : forall index s,
+  1 <= n -> -1 <= index -> StoreInv n s ->
+  exists s', rate_loop n gap height rates assets index s = Ok s' /\ StoreInv n s'.
+Proof.
+  induction assets as [|[a req] rest IH]; intros index s Hn Hi HS; cbn [rate_loop].
+  - exists s. split; [reflexivity|exact HS].
+  - destruct (req && negb match rates with [] => true | _ :: _ => false end).
+    + destruct (Z.gtb_spec (zlen rates) (index + 1)) as [Hlen|Hlen].
+      * destruct (nth_z_some rates (Z.to_nat (index + 1))) as [rate Hr]; [unfold zlen in Hlen; lia|].
+        rewrite Hr. destruct (HS a) as [g Hg].
+        destruct (mstep_inv n gap g (sget s a) (Sample height rate) Hn Hg) as (t' & Hs & HI').
+        cbn [mstep] in Hs. rewrite Hs.
+        apply IH; [assumption|lia|]. intros id. destruct (Z.eq_dec id a) as [->|Hne].
+        -- rewrite sget_sput; [eexists; exact HI'|]. intros ->. apply (update_none_result _ _ _ _ _ Hs).
+        -- rewrite sget_sput_other by assumption. apply HS.
+      * apply IH; [assumption|lia|assumption].
+    + apply IH; assumption.
+Qed.
+
+Lemma storeinv_discard n s : 1 <= n ->
+  StoreInv n s -> StoreInv n (map (fun kv : Z * twa => (fst kv, discard_reset (snd kv))) s).
+Proof.
+  intros Hn HS id. rewrite sget_map. destruct (HS id) as [g Hg].
+  destruct (mstep_inv n 0 g (sget s id) DiscardReset Hn Hg) as (t' & Hs & HI').
+  cbn [mstep] in Hs. injection Hs as <-. eexists; exact HI'.
+Qed.
+
+(* market.BeginBlocker never panics on a store whose records satisfy the ring invariant, and
+   re-establishes it: by induction over blocks, no block of any history panics *)
+Theorem begin_block_no_panic e assets s :
+  1 <= bb_n e -> StoreInv (bb_n e) s ->
+  exists s' d, begin_block e assets s = Ok (s', d) /\ StoreInv (bb_n e) s'.
+Proof.
+  intros Hn HS. unfold begin_block. cbv zeta. destruct (bb_valid e).
+  - destruct (negb (bb_last e =? 0) && (bb_height e mod 20 =? 0)).
+    + destruct (bb_discard e).
+      * destruct (rate_loop_ok (bb_n e) (bb_gap e) (bb_height e) (bb_rates e) assets (-1) _ Hn ltac:(lia)
+                    (storeinv_discard _ _ Hn HS)) as (s2 & HL & HS2).
+        rewrite HL. exists s2, false. split; [reflexivity|exact HS2].
+      * destruct (rate_loop_ok (bb_n e) (bb_gap e) (bb_height e) (bb_rates e) assets (-1) _ Hn ltac:(lia) HS)
+          as (s2 & HL & HS2).
+        rewrite HL. exists s2, false. split; [reflexivity|exact HS2].
+    + exists s, (bb_discard e). split; [reflexivity|exact HS].
+  - eexists _, (bb_discard e). split; [reflexivity|].
+    intros id. pose proof (invalidate_fold_refines (bb_n e) (bb_gap e) assets s id) as HR.
+    destruct (HS id) as [g Hg].
+    destruct (mrun_inv (bb_n e) (bb_gap e)
+                (filter_ops id (map (fun a : Z * bool => (fst a, Invalidate)) assets))
+                g (sget s id) Hn Hg) as (t' & Hr & HI').
+    rewrite HR in Hr. injection Hr as <-. eexists; exact HI'.
+Qed.
+
+Lemma storeinv_empty n : StoreInv n [].
+Proof. intros id. exists ghost0. reflexivity. Qed.
